@@ -165,7 +165,10 @@ class union(_composite_base):
         disc, _ = self._discriminator_type._decode(data, pos, endianness)
         field = self._get_discriminated_field(disc)
 
-        self._discriminated = field
+        if field is not self._discriminated:
+            """ as when the discriminator is assigned: what another arm held is gone """
+            self._discriminated = field
+            self._fields = {}
         field.decode_fcn(self, field.name, field.type, data, pos + self._ALIGNMENT, endianness, {})
 
         bytes_read = len(data) - pos
@@ -195,6 +198,8 @@ def bytes_(**kwargs):
     size = kwargs.pop("size", 0)
     bound = kwargs.pop("bound", None)
     shift = kwargs.pop("shift", 0)
+    if not isinstance(size, (int, long)) or not isinstance(shift, (int, long)):
+        raise ProphyError("size and shift of bytes must be integers")
     if shift and (not bound or size):
         raise ProphyError("only shifting bound bytes implemented")
     if shift < 0:
